@@ -239,9 +239,29 @@ for _n in ('panic', 'panic_fmt', 'panic_explicit', 'unwrap_failed', 'expect_fail
 
 
 @model('must_use', 'hint::must_use', 'black_box', 'hint::black_box', 'identity', 'convert::identity',
-       '<T as Into>::into', 'Into::into', 'From::from', '<T as From>::from', 'Borrow::borrow', 'AsRef::as_ref',
-       'IntoIterator::into_iter', 'Iterator::by_ref')
+       'Borrow::borrow', 'AsRef::as_ref', 'IntoIterator::into_iter', 'Iterator::by_ref')
 def m_identity(I, args, callee):
+    return args[0]
+
+
+@model('<T as Into>::into', 'Into::into', 'From::from', '<T as From>::from')
+def m_from_into(I, args, callee):
+    """lossless conversions between scalar types (u8 -> u32, u16 -> u32, u32 -> f64, char -> u32, ...); identity otherwise"""
+    import re as _re
+    q = I.parse_qualified(callee)
+    if q and q[1]:
+        st = q[0].strip()
+        m = _re.search(r'(?:From|Into)<([^<>]*)>', q[1])
+        ot = m.group(1).strip() if m else None
+        if ot:
+            src, dst = (ot, st) if 'From' in q[1] else (st, ot)
+            ints = dict(INT_TYPES, bool=(1, False))
+            if src in ints and dst in ints and src != dst:
+                return I.cast(args[0], src, dst, 'IntToInt')
+            if src in ints and dst in ('f32', 'f64'):
+                return I.cast(args[0], src, dst, 'IntToFloat')
+            if src == 'f32' and dst == 'f64':
+                return I.cast(args[0], src, dst, 'FloatToFloat')
     return args[0]
 
 
